@@ -148,7 +148,7 @@ func (q *queuesInv) Before(m *Machine, a *Action) { q.before = observeDogfood(m)
 
 func isBlockStep(a *Action) bool {
 	switch a.Kind {
-	case "nextBlock", "slash", "jail", "unjail":
+	case "nextBlock", "slash", "jail", "unjail", "evidence":
 		return true
 	}
 	return false
